@@ -31,17 +31,9 @@ def st(x, r):
 
 # ------------------------------------------------------------------ moving averages
 def sma(xs, p, r):
-    """mean of the last p inputs; a rolling-update implementation accumulates one rounding per step."""
-    out, k = [], 0
-    for i in range(len(xs)):
-        if full(xs, p, i):
-            k += 1
-            m = nsum(Num.of(x) for x in xs[i - p + 1:i + 1]) * (1.0 / p)
-            out.append(Num(m.v, m.e + k * rho(r)))
-        else:
-            out.append(None)
-            k = 0
-    return out
+    """mean of the last p inputs, stored at r decimals: ONE rounding, however long the history (an implementation that keeps
+    updating its own rounded reading drifts without bound - that is not 'the error the configured rounding can introduce')."""
+    return [(nsum(Num.of(x) for x in xs[i - p + 1:i + 1]) * (1.0 / p)).st(r) if full(xs, p, i) else None for i in range(len(xs))]
 
 
 def wma(xs, p, r):
